@@ -26,7 +26,7 @@ import (
 	"github.com/mutagen-io/mutagen/pkg/synchronization/rsync"
 
 	"verif/harness/hx"
-	"verif/harness/sessx"
+	sessx "verif/harness/scriptx"
 )
 
 type realEnv struct {
